@@ -128,6 +128,31 @@ func Nominal(p string) string {
 	return filepath.Clean(p)
 }
 
+// Unreal maps a path under the world's private root back to the library-side path.
+func Unreal(real string) string {
+	if root == "" {
+		return real
+	}
+	for _, r := range []string{root, resolvedRoot()} {
+		if real == r {
+			return "/"
+		}
+		if strings.HasPrefix(real, r+"/") {
+			return strings.TrimPrefix(real, r)
+		}
+	}
+	return real
+}
+
+// resolvedRoot: the private root with its own symbolic links resolved (the scratch
+// directory may live below one).
+func resolvedRoot() string {
+	if r, err := filepath.EvalSymlinks(root); err == nil {
+		return r
+	}
+	return root
+}
+
 // Real maps a library-side path to the path under the world's private root.
 func Real(p string) string {
 	if root == "" {
